@@ -665,7 +665,10 @@ func (r *Runner) execSketch(cmd string, a []string) string {
 						r.oracleFail("copy-differs", fmt.Sprintf("exact sum of the copy is %v, of the original %v", s2, s1))
 					}
 				}
-				if e.storeKind != "sparse" {
+				// (not for paginated stores either: Encode compacts their buffer, and an oracle must not
+				// reorganise the sketches under test — it would hide what only shows in a particular
+				// internal state)
+				if e.storeKind != "sparse" && e.storeKind != "pag" {
 					b1, b2 := encodeBytes(e, false), encodeBytes(c, false)
 					if string(b1) != string(b2) {
 						r.oracleFail("copy-differs", fmt.Sprintf("the copy encodes to %x, the original to %x", b2, b1))
